@@ -115,6 +115,15 @@ def d3(cx: Cx, ob: Ob) -> None:
         from ..rules import _container_fields, _unset
 
         conds: list = []
+        empty = (op(recs) in ("list", "tuple") and not recs[1]) or (op(recs) == "new" and op(recs[4]) in ("list", "tuple") and not recs[4][1] and not s.mutations_of(recs))
+        if empty:
+            from ..rules import guard_atoms
+
+            req = ("param", fn.params[1].name)
+            if any(pol is False and any(x == req for x in subterms(a)) and op(a) in ("param", "call", "new") for a, pol in guard_atoms(ctx.guards)):
+                # shortcut for an empty request: no record can be kept - what the general path builds
+                ob.site(f"{where(fn, line)} {fn.qualname}", "empty request -> empty converter")
+                continue
         if op(recs) == "comp" and len(recs[3]) == 1:
             tgt, it, ifs = recs[3][0]
             prov.add_binding(tgt, it)
